@@ -15,6 +15,12 @@
 
 namespace adept {
 
+#ifdef RJHOGAN_ADEPT_2_VERIF
+  namespace internal {
+    void (*verif_minimizer_hook)(const char*) = 0;
+  }
+#endif
+
   // List of the names of available minimizer algorithms
   static const char* minimizer_algorithm_names_[]
     = {"L-BFGS",
